@@ -14,7 +14,7 @@ Definition is_anchor (f : frame) : bool :=
 Definition script_kind (f : frame) : bool :=
   match f with
   | FScript _ _ _ | FDepAdd _ _ _ | FDepRead _ _ | FTimerReg _ _ | FTimerAdd _ _
-  | FChildBegin _ _ _ _ | FCacheSet _ _ _ _ | FCacheLink _ _ => true
+  | FChildBegin _ _ _ _ | FCacheSet _ _ _ _ | FCacheLink _ _ | FCacheGet _ _ _ _ | FKeyUnlock _ _ | FJoin _ _ => true
   | _ => false
   end.
 
@@ -53,16 +53,14 @@ Proof.
   intros f rest [H _] N. destruct (has_anchor rest) eqn:E; [|reflexivity]. rewrite (H eq_refl) in N. discriminate.
 Qed.
 
-Lemma unwind_shape : forall r stk cs below,
-  unwind r stk = Some (cs, below) -> shape stk -> shape below /\ has_anchor below = false.
+Lemma unwind_shape : forall r stk cs ks below term,
+  unwind r stk = Some (cs, ks, below, term) -> shape stk -> shape below /\ has_anchor below = false.
 Proof.
-  induction stk as [|h t IH]; simpl; intros cs below H Sh; [discriminate|].
-  destruct h; try discriminate.
-  - destruct (Nat.eqb r r0); [|discriminate]. eapply IH; [exact H | apply Sh].
-  - destruct (Nat.eqb r r0); [|discriminate]. destruct (unwind r t) as [[cs' b']|] eqn:U; [|discriminate]. inversion H; subst.
-    eapply IH; [reflexivity | apply Sh].
-  - destruct (Nat.eqb r r0); [|discriminate]. inversion H; subst. destruct Sh as [S1 S2]. split; [exact S2|].
-    destruct (has_anchor below) eqn:E; [|reflexivity]. specialize (S1 eq_refl). discriminate.
+  intros r stk cs ks below term H Sh.
+  destruct (unwind_split _ _ _ _ _ _ H) as [d [l [E [_ [L _]]]]]. subst stk.
+  apply shape_app in Sh. destruct Sh as [S1 S2]. split; [exact S2|].
+  destruct (has_anchor below) eqn:A; [|reflexivity]. specialize (S1 eq_refl).
+  destruct term; simpl in L; [subst l | destruct L as [c ->]]; discriminate.
 Qed.
 
 Lemma inv_step_shape : forall s n k s1 st sp,
@@ -87,6 +85,21 @@ Proof.
 Qed.
 
 Ltac single_ok := split; [discriminate|]; split; [reflexivity|]; simpl; split; [intros; discriminate | exact I].
+
+Lemma do_fail_shape : forall s r stk retry s1 st sp,
+  do_fail s r stk retry = Some (s1, st, sp) -> shape stk -> shape st /\ forall t, In t sp -> stack_ok t.
+Proof.
+  intros s r stk retry s1 st sp H Sh.
+  destruct (do_fail_spec _ _ _ _ _ _ _ H) as [cs [ks [below [term [y [U [N [Sl [R [Y1 [Y2 [Y3 [Y4 [Y5 [Y6 [Y7 [Y8 T]]]]]]]]]]]]]]]]].
+  destruct (unwind_shape _ _ _ _ _ _ U Sh) as [Sb Ab].
+  assert (RI : forall t cs0, In t (map (fun c0 => [FRelEnter c0]) cs0) -> stack_ok t).
+  { intros t cs0 Ht. apply in_map_iff in Ht. destruct Ht as [x [<- _]]. single_ok. }
+  destruct term as [jid|].
+  - destruct T as [-> [-> _]]. simpl. rewrite Ab. split; [split; [intros; discriminate | exact Sb] | intros t Ht; eapply RI; exact Ht].
+  - destruct T as [-> [_ [[_ [-> _]]|[_ [-> _]]]]]; simpl; rewrite Ab; (split; [split; [intros; discriminate | exact Sb]|]); intros t Ht.
+    + apply in_app_iff in Ht. destruct Ht as [Ht|[<-|[]]]; [eapply RI; exact Ht | single_ok].
+    + eapply RI; exact Ht.
+Qed.
 
 Lemma step_top_shape : forall s f rest arg s1 st sp,
   step_top s f rest arg = Some (s1, st, sp) -> shape (f :: rest) ->
@@ -127,26 +140,22 @@ Proof.
     destruct p as [|o q]; [discriminate|].
     assert (Keep : shape (FScript r c q :: rest)) by (split; [intros; reflexivity | exact Sr]).
     assert (Fail : forall retry, do_fail s r (FScript r c q :: rest) retry = Some (s1, st, sp) -> shape st /\ forall t, In t sp -> stack_ok t).
-    { intros retry HF. unfold do_fail in HF.
-      destruct (unwind r (FScript r c q :: rest)) as [[cs below]|] eqn:U; [|discriminate].
-      destruct (unwind_shape _ _ _ _ U Keep) as [Sb Ab].
-      assert (RI : forall t cs0, In t (map (fun c0 => [FRelEnter c0]) cs0) -> stack_ok t).
-      { intros t cs0 Ht. apply in_map_iff in Ht. destruct Ht as [x [<- _]]. single_ok. }
-      destruct retry; inversion HF; subst; clear HF; simpl; rewrite Ab;
-        (split; [split; [intros; discriminate | exact Sb]|]); intros t Ht.
-      - apply in_app_iff in Ht. destruct Ht as [Ht|[<-|[]]]; [eapply RI; exact Ht | single_ok].
-      - eapply RI; exact Ht. }
+    { intros retry HF. eapply do_fail_shape; eauto. }
     destruct o.
     + inversion H; subst. simpl. split; [split; [intros; reflexivity | exact Keep] | intros t []].
     + destruct (Nat.eqb arg 0); [|unfold alloc in H]; inversion H; subst; simpl;
         (split; [first [exact Keep | split; [intros; reflexivity | exact Keep]] | intros t []]).
     + destruct (Nat.eqb arg 0).
-      * destruct (cache_get (r_cache (getr s r)) key) as [child|]; [destruct (Nat.eqb child c); [discriminate|]|];
-          inversion H; subst; simpl; (split; [split; [intros; reflexivity | exact Keep] | intros t []]).
+      * destruct (memb key (r_keys (getr s r))); [discriminate|]. inversion H; subst. simpl.
+        split; [split; [intros; reflexivity | split; [intros; reflexivity | exact Keep]] | intros t []].
       * destruct (Nat.eqb arg 2); [inversion H; subst; split; [exact Keep | intros t []]|].
         destruct (r_cancel (getr s r)); [|discriminate]. eapply Fail; eauto.
     + destruct (Nat.eqb arg 0); [inversion H; subst; split; [exact Keep | intros t []] | eapply Fail; eauto].
     + destruct (Nat.eqb arg 0); [inversion H; subst; split; [exact Keep | intros t []] | eapply Fail; eauto].
+    + (* OPar *)
+      inversion H; subst. simpl. split; [split; [intros; reflexivity | exact Keep]|].
+      intros t Ht. destruct (branch_tasks_in _ _ _ _ _ _ Ht) as [idx [b [_ ->]]].
+      split; [discriminate|]. split; [reflexivity|]. simpl. repeat split; intros; discriminate.
   - destruct (do_add_out s res c) as [[s2 sp2]|] eqn:A; [|discriminate]. inversion H; subst.
     split; [split; [intros; reflexivity | exact Sr] | eapply do_add_out_spawn_ok; eauto].
   - inversion H; subst. split; [exact Sr | intros t []].
@@ -158,6 +167,16 @@ Proof.
   - destruct (cache_get (r_cache (getr s r)) key); inversion H; subst; (split; [split; [intros; reflexivity | exact Sr] | intros t []]).
   - destruct (do_add_out s child parent) as [[s2 sp2]|] eqn:A; [|discriminate]. inversion H; subst.
     split; [exact Sr | eapply do_add_out_spawn_ok; eauto].
+  - (* FCacheGet *)
+    destruct (cache_get (r_cache (getr s r)) key) as [child|]; [destruct (Nat.eqb child c); [discriminate|]|];
+      inversion H; subst; (split; [split; [intros; reflexivity | exact Sr] | intros t []]).
+  - (* FKeyUnlock *) inversion H; subst. split; [exact Sr | intros t []].
+  - (* FJoin *)
+    destruct (nth jid (s_joins s) (0, false)) as [nb failed]. destruct (Nat.eqb nb 0); [|discriminate].
+    destruct failed; [eapply do_fail_shape; eauto | inversion H; subst; split; [exact Sr | intros t []]].
+  - (* FBranchBegin *) inversion H; subst. split; [exact Sr | intros t []].
+  - (* FBranchEnd *)
+    destruct (nth jid (s_joins s) (0, false)) as [nb failed]. inversion H; subst. split; [exact Sr | intros t []].
   - inversion H; subst. simpl. rewrite Na. split; [split; [intros; discriminate | exact Sr]|].
     intros t Ht. destruct (r_comp (getr s r)); simpl in Ht; [destruct Ht as [<-|[]]; single_ok | contradiction].
   - destruct (negb (n_inv (getN s c)) && match n_hinv (getN s c) with Some _ => true | None => false end); [discriminate|].
@@ -222,8 +241,9 @@ Proof.
     destruct (Nat.ltb n (length (s_nodes x)) && Nat.ltb to (length (s_nodes x)) && negb (Nat.eqb n to)); [|discriminate].
     destruct (g_add_out (s_nodes x) n to) as [g [[a b] c]]. inversion HH. split; reflexivity. }
   assert (A7 : forall x r stk b y st' sp', do_fail x r stk b = Some (y, st', sp') -> s_tid y = s_tid x /\ s_tasks y = s_tasks x).
-  { intros x r stk b y st' sp' HH. unfold do_fail in HH. destruct (unwind r stk) as [[cs below]|]; [|discriminate].
-    destruct b; inversion HH; split; reflexivity. }
+  { intros x r stk b y st' sp' HH. unfold do_fail in HH. destruct (unwind r stk) as [[[[cs ks] below] [jid|]]|]; [| |discriminate].
+    - inversion HH; split; reflexivity.
+    - destruct b; inversion HH; split; reflexivity. }
   assert (A8 : forall x n k y st' sp', inv_step x n k = Some (y, st', sp') -> s_tid y = s_tid x /\ s_tasks y = s_tasks x).
   { intros x n k y st' sp' HH. unfold inv_step in HH.
     destruct (Nat.ltb n (length (s_nodes x))); [|discriminate].
